@@ -15,12 +15,13 @@ var commonAssume = []string{
 	"A3 unsafe string/slice views are not mutated afterwards",
 	"A5 underlying readers fail only with EOF; writers do not fail",
 	"T1 go/ssa lowering (x/tools v0.29.0) and this engine's transfer functions; cross-checked by native replay of path witnesses",
-	"T2 z3 4.8.12",
+	"T2 z3 5.1.0 (z3-new); z3 4.8.12 and cvc5 available for cross-checking with --solver",
+	"T6 strconv.ParseFloat on a symbolic token of <= 4 bytes is a stub returning an arbitrary float64 and no error (only reached by the lexer in C11)",
 	"T3 fmt.* is an opaque stub (messages are not formatted); sync.Pool is a LIFO list; mutexes/atomics are sequential",
 }
 
 func allChecks() []*CheckDef {
-	return []*CheckDef{checkC02(), checkC03(), checkC12(), checkC13(), checkC14(), checkC09()}
+	return []*CheckDef{checkC02(), checkC03(), checkC12(), checkC13(), checkC14(), checkC09(), checkC11()}
 }
 
 func checkC03() *CheckDef {
@@ -236,6 +237,53 @@ func checkC09() *CheckDef {
 				"numbers":       "every field id, enum value (explicit or implicit) and constant is a free 64-bit integer; strict and non-strict mode symbolic",
 				"map_iteration": "insertion order (order is not this property's subject)",
 				"outside":       "lexer int64 parsing and hex forms; programs of other shapes; self-referential constants/services",
+			}
+		},
+		Assume: commonAssume,
+	}
+}
+
+const idlIntPkg = "go.uber.org/thriftrw/idl/internal"
+
+var pkgIdlInt = PkgDef{Path: idlIntPkg, Dir: "idl/internal", Name: "internal", Files: []string{"idl_internal/zz_h11.go"}}
+
+func checkC11() *CheckDef {
+	type bnd struct{ la, lb, lc, nd int }
+	bounds := func(tier string) bnd {
+		if tier == "thorough" {
+			return bnd{la: 8, lb: 7, lc: 6, nd: 3}
+		}
+		return bnd{la: 6, lb: 5, lc: 4, nd: 2}
+	}
+	return &CheckDef{
+		ID:   "C11",
+		Pkgs: []PkgDef{pkgIdlInt},
+		Harnesses: func(tier string) []*sym.HarnessConfig {
+			b := bounds(tier)
+			var out []*sym.HarnessConfig
+			for dq := 0; dq <= 1; dq++ {
+				for n := 2; n <= b.la; n++ {
+					out = append(out, &sym.HarnessConfig{Name: "h11a", Pkg: idlIntPkg, Params: map[string]int{"n": n, "dq": dq}, Budget: 3000000})
+				}
+			}
+			for n := 0; n <= b.lb; n++ {
+				out = append(out, &sym.HarnessConfig{Name: "h11b", Pkg: idlIntPkg, Params: map[string]int{"n": n}, Budget: 3000000})
+			}
+			for n := 2; n <= b.lc; n++ {
+				out = append(out, &sym.HarnessConfig{Name: "h11c", Pkg: idlIntPkg, Params: map[string]int{"n": n}, Budget: 6000000})
+			}
+			for n := 0; n <= b.nd; n++ {
+				out = append(out, &sym.HarnessConfig{Name: "h11d", Pkg: idlIntPkg, Params: map[string]int{"n": n}, Budget: 6000000})
+			}
+			out = append(out, &sym.HarnessConfig{Name: "h11_witness", Pkg: idlIntPkg, Params: map[string]int{"n": 3, "dq": 1}, ExpectViolation: true})
+			return out
+		},
+		Bounds: func(tier string) map[string]interface{} {
+			b := bounds(tier)
+			return map[string]interface{}{
+				"literal_bytes_max": b.la, "literal_grammar": "quotes + ASCII body with escapes \\n \\r \\t \\\\ \\' \\\" only (other escapes are outside the claim)",
+				"docstring_bytes_max": b.lb, "literal_in_context_bytes_max": b.lc, "arbitrary_document_bytes_max": b.nd,
+				"outside": "tree structure and positions of other constructs, ast.Walk, layout/separator combinations, documents longer than the bound",
 			}
 		},
 		Assume: commonAssume,
